@@ -124,9 +124,10 @@ def subj_selector(b, kind, pattern):
                 p["initialize"] = -1 - rng.randrange(lim)  # counted from the end
         elif r < 0.7:
             p["initialize"] = "random"
-            p["random_state"] = rng.randrange(100)
-            if rng.random() < 0.3:
-                p["random_state"] = {"$npint": p["random_state"], "dtype": "int64"}
+            if rng.random() < 0.65:  # else: the documented default (0), still reproducible
+                p["random_state"] = rng.randrange(100)
+                if rng.random() < 0.3:
+                    p["random_state"] = {"$npint": p["random_state"], "dtype": "int64"}
         elif fam == "fps":
             k = rng.randint(1, min(N, 3))
             ia = b.add({"kind": "index", "n": lim, "k": k, "seed": _seed(rng)}, "index_list", "C")
